@@ -307,7 +307,8 @@ func (p *envParser) parseMarkerExpr() (marker, error) {
 	// and right hand side as a constraint. === is a special case because
 	// its purpose to force string comparison, see PEP 440 for details
 	// (https://www.python.org/dev/peps/pep-0440/).
-	if l.version != nil && r.version != nil && o != markerOpEqualEqualEqual {
+	// in and not in are only defined on strings, whatever the operands look like.
+	if l.version != nil && r.version != nil && o != markerOpEqualEqualEqual && o != markerOpIn && o != markerOpNotIn {
 		c, err := semver.PyPI.ParseConstraint(o.String() + r.value)
 		if err != nil {
 			return nil, err
